@@ -7,6 +7,7 @@ import (
 	"math"
 	"os"
 	"path/filepath"
+	"runtime/debug"
 	"sort"
 	"strings"
 	"unicode/utf8"
@@ -135,6 +136,9 @@ func (r *runner) runWorld(p *Plan, m *Model, img *Image, path string, chain []ma
 			if x := recover(); x != nil {
 				if _, ok := x.(simAbort); !ok {
 					r.res.Harness = fmt.Sprintf("harness panic: %v", x)
+					if os.Getenv("SIM_PANIC_STACK") != "" {
+						r.res.Harness += "\n" + string(debug.Stack())
+					}
 				}
 			}
 			w.Unmount()
